@@ -63,35 +63,16 @@ type View struct {
 }
 
 func parseSlots(set *asv1.StatefulSet) map[int]bool {
-	// independent parse of a well-formed annotation (the worlds only write well-formed lists)
-	out := map[int]bool{}
+	// the harness' own reading of the annotation (see strictSlots in c01_test.go): a list of int32 literals
+	// denotes those slots, any other value denotes none. Worlds never write lists with null elements.
 	v, ok := set.Annotations["delete-slots"]
 	if !ok {
-		return out
+		return map[int]bool{}
 	}
-	var cur int
-	neg, in := false, false
-	flush := func() {
-		if in {
-			if neg {
-				cur = -cur
-			}
-			out[cur] = true
-		}
-		cur, neg, in = 0, false, false
+	out, _ := strictSlots(v)
+	if out == nil {
+		out = map[int]bool{}
 	}
-	for _, ch := range v {
-		switch {
-		case ch >= '0' && ch <= '9':
-			cur = cur*10 + int(ch-'0')
-			in = true
-		case ch == '-':
-			neg = true
-		default:
-			flush()
-		}
-	}
-	flush()
 	return out
 }
 
